@@ -239,6 +239,83 @@ def gen_c14_filter_cases(seed, ncases):
     return cases
 
 
+PAR_CONNS = 4
+
+
+def par_cmd(r, own):
+    """One single-owner command: every key it names belongs to the issuing connection, so the
+    replies do not depend on how the commands of different connections interleave."""
+    for _ in range(50):
+        f = r.randrange(10)
+        cmd = gen.string_cmd(r, own) if f < 4 else gen.list_cmd(r, own) if f < 7 else other_cmd(r, own)
+        if not cmd:
+            return cmd
+        n = cmd[0].lower()
+        if n in (b"keys", b"blpop", b"brpop", b"select", b"member", b"rconf", b"publish", b"subscribe") or n in NONDET:
+            continue
+        if n == b"xadd" and any(a == b"*" or a.endswith(b"-*") for a in cmd[2:5]):
+            continue
+        if r.random() < 0.25:
+            cmd[0] = gen.randcase(r, cmd[0])
+        return cmd
+    return [b"get", own[0]]
+
+
+def gen_c14_par_cases(seed, ncases, maxrounds=12):
+    """Rounds of up to four commands, one per connection, all pending in the node before any of
+    them is committed (hook VerifClusterLoopbackMulti).  Keys carry the owner's number; half of
+    the rounds use commands of identical encoded length (INCR c<i>:n, SET c<i>:k v<i>), the
+    shape under which one pending proposal can be mistaken for another."""
+    r = random.Random(seed * 67867967 + 41)
+    cases = []
+    for i in range(ncases):
+        c = Case("c14p_%d_%d" % (seed, i))
+        own = [[b"c%d:n" % k, b"c%d:k" % k, b"c%d a b" % k, b"c%d\xff\r\n" % k, b"c%d:l" % k] for k in range(PAR_CONNS)]
+        for _ in range(r.randrange(2, maxrounds + 1)):
+            conns = r.sample(range(PAR_CONNS), r.randrange(2, PAR_CONNS + 1))
+            shape = r.randrange(6)
+            for k in conns:
+                if shape == 0:
+                    cmd = [b"incr", own[k][0]]
+                elif shape == 1:
+                    cmd = [b"set", own[k][1], b"v%d" % k]
+                elif shape == 2:
+                    cmd = [b"rpush", own[k][4], b"e%d" % k]
+                else:
+                    cmd = par_cmd(r, own[k])
+                c.cmd(cmd, conn=k)
+            if r.random() < 0.3:
+                c.dump()
+        c.dump()
+        cases.append(c)
+    return cases
+
+
+def gen_concurrent_clients(seed, nclients, nops):
+    """Per-client command lists for real node processes: every client works on its own keys, the
+    commands of different clients have identical encoded lengths (INCR ctr:<c>, SET reg:<c> v<c>-<iii>,
+    RPUSH lst:<c> e<iii>) mixed with a few of other lengths."""
+    r = random.Random(seed * 2654435761 + 99)
+    progs = []
+    for cl in range(nclients):
+        tag = b"%02d" % cl          # every client its own keys; same length for all clients
+        p = []
+        for i in range(nops):
+            x = r.randrange(10)
+            if x < 5:
+                p.append([b"incr", b"ctr:" + tag])
+            elif x < 7:
+                p.append([b"set", b"reg:" + tag, b"v%s-%03d" % (tag, i)])
+            elif x < 8:
+                p.append([b"get", b"reg:" + tag])
+            elif x < 9:
+                p.append([b"rpush", b"lst:" + tag, b"e%03d" % i])
+            else:
+                p.append([b"append", b"app:" + tag, b"x" * r.randrange(1, 40)])
+        progs.append(p)
+    return progs
+
+
 TIMED = {b"expire", b"setex", b"ttl", b"blpop", b"brpop", b"persist"}
 
 
